@@ -338,8 +338,10 @@ def stored_ok(fa: FuncAnalysis, n: Node, e, converts: List[ast.Call], depth=0) -
 def r01b(run):
     table = c04.dispatch_types(run)
     total = 0
+    from . import args_table
+    args_table.emit(run, "R01b", only_raw=True)      # the sequence / mapping element parsers: decided on their tables
     for pname in sorted(table):
-        if pname == "_parse_type_arg":
+        if pname == "_parse_type_arg" or pname in args_table.TABLE_FUNCS:
             continue
         f = run.repo.func("utype.parser.rule", f"Rule.{pname}")
         fa = analysis(f)
@@ -385,7 +387,7 @@ def r01b(run):
                     run.check("R01b", f, "the input container is returned only when no element type is declared", ok,
                               construct=f"{pname} returns its input", message=f"{pname}: `{norm_stmt(n.ast)}` returns "
                               f"the unparsed input container", necessity="no element is converted at all", node=n.ast)
-    run.floor("R01b", "stores into result containers", total, 8)
+    run.floor("R01b", "stores into result containers (outside the element-parser tables)", total, 4)
 
 
 def r01c(run):
